@@ -108,6 +108,17 @@ def seeded_variants(pid):
     return out
 
 
+def benign_variants():
+    """Confirmed behaviour-preserving refactorings kept under /verif/benign/<ID>-<k>/patch.diff: every check must stay silent on each."""
+    d = os.path.join(core.VERIF, "benign")
+    out = []
+    if os.path.isdir(d):
+        for name in sorted(os.listdir(d)):
+            if os.path.exists(os.path.join(d, name, "patch.diff")):
+                out.append({"name": "benign/" + name, "patch": os.path.join(d, name, "patch.diff"), "expect": "silent"})
+    return out
+
+
 def _job(a):
     pid, v, repo = a
     import importlib
@@ -121,7 +132,7 @@ def _job(a):
 
 def run_all(pid, module, repo="/repo", verbose=False, jobs=None, seeded=True):
     res = []
-    variants = load_variants(pid) + (seeded_variants(pid) if seeded else [])
+    variants = load_variants(pid) + ((seeded_variants(pid) + benign_variants()) if seeded else [])
     jobs = jobs or min(16, os.cpu_count() or 1)
     if jobs > 1 and len(variants) > 1:
         import multiprocessing
